@@ -88,6 +88,11 @@ class C11:
             r = rng.random()
             if depth == 0 and cfg["record"] and r < 0.08:
                 return ["drain"]  # export_text(clear=True) while the other threads print
+            if depth == 0 and rng.random() < 0.07:
+                # file fault during this output operation: the write is refused, or it is taken and the
+                # flush after it fails; the thread catches the OSError and carries on printing
+                inner = simple(t) if rng.random() < 0.7 else ["block", [simple(t) for _ in range(rng.randint(1, 2))]]
+                return ["ioerr", rng.choice(["write", "flush"]), inner]
             if r < 0.55 or depth >= 2:
                 return simple(t)
             if r < 0.8 or depth > 0:
@@ -208,6 +213,7 @@ class Multi:
         self.captures = []  # (thread, expected string, got string)
         self.drained = []  # token lists returned by clearing exports taken while threads print
         self.captured_tokens = set()
+        self.optional = set()  # first tokens of payloads whose write the file refused
         self.n = len(case["threads"])
         self.done = 0
         self.stdout_sentinel, self.stderr_sentinel = sys.stdout, sys.stderr
@@ -461,6 +467,21 @@ class Multi:
                 o.end_op()
         elif k == "capture":
             self._capture(t, op)
+        elif k == "ioerr":
+            # un-acknowledged output: a refused write may be lost (or come out later, once); a write
+            # that was taken before the flush failed is in the file and must never come out again
+            payloads = self._payloads(op[2])
+            self.expected[t].extend(payloads)
+            if op[1] == "write":
+                self.optional.update(TOKEN.findall(p)[0] for p in payloads if TOKEN.findall(p))
+            me = self.sim.me().tid
+            self.file.armed[me] = op[1]
+            try:
+                self._emit(op[2], t)
+            except OSError:
+                self.probes["file_errors_caught"] = self.probes.get("file_errors_caught", 0) + 1
+            finally:
+                self.file.armed.pop(me, None)
         elif k == "drain":
             self.probes["draining_exports"] += 1
             self.drained.append(TOKEN.findall(self.console.export_text(clear=True)))
@@ -577,7 +598,8 @@ class Multi:
             probes.update({"o_" + k: v for k, v in self.oracle.probe.items()
                            if k not in ("frame_exact_screen_height", "frame_taller_than_screen", "relaxed_runs")})
         probes["lock_contended"] = sim.stats["lock_contended"]
-        faults = {"timer_fired_by_choice": sim.stats["timer_fired_by_choice"], "preemptions": max(0, sim.switches - len(sim.threads))}
+        faults = {"timer_fired_by_choice": sim.stats["timer_fired_by_choice"], "preemptions": max(0, sim.switches - len(sim.threads)),
+                  "file_write_refused": self.file.io_errors["write"], "file_flush_failed_after_write": self.file.io_errors["flush"]}
         return {"violations": viols, "faults": faults, "probes": probes, "nontrivial": sim.switches > len(sim.threads),
                 "sample": {"kind": self.kind, "cfg": self.cfg, "threads": self.case["threads"]}}
 
@@ -593,6 +615,8 @@ class Multi:
             for p in plist:
                 toks = TOKEN.findall(p)
                 hits = [i for i, w in enumerate(all_text) if toks and toks[0] in w]
+                if not hits and toks and toks[0] in self.optional:
+                    continue
                 if len(hits) != 1:
                     self._v("exactly-once", "payload-count", "payload %r of thread %d appears in %d writes (expected exactly 1)" % (p[:60], t, len(hits)))
                     return
